@@ -5030,8 +5030,18 @@ namespace awkward {
       builder.string(array, 1);
     }
     else if (ndim() == 1) {
-      char* array = reinterpret_cast<char*>(data());
-      builder.string(array, length());
+      if (!iscontiguous()) {
+        char* array = reinterpret_cast<char*>(data());
+        std::string copied;
+        for (int64_t i = 0;  i < length();  i++) {
+          copied.push_back(array[i*strides_[0]]);
+        }
+        builder.string(copied.c_str(), length());
+      }
+      else {
+        char* array = reinterpret_cast<char*>(data());
+        builder.string(array, length());
+      }
     }
     else {
       const std::vector<ssize_t> shape(std::next(shape_.begin()), shape_.end());
